@@ -224,6 +224,7 @@ func (f *Fake) GetRawEntries(ctx context.Context, start, end int64) (*ct.GetEntr
 	}
 	if f.nreq > f.reqCap && !f.runaway {
 		f.runaway = true
+		f.emit(map[string]any{"ev": "Cancel"})
 		f.cancel()
 	}
 	if f.onReq != nil {
